@@ -90,3 +90,8 @@ thread_local! {
     /// set by the network when the datagram with the spoofed source address is handed to the server
     pub static SPOOF_FLAG: std::cell::Cell<bool> = const { std::cell::Cell::new(false) };
 }
+
+thread_local! {
+    /// highest NEW_CONNECTION_ID sequence number each side has sent so far ([client, server])
+    pub static ISSUED_MAX: std::cell::Cell<[u64; 2]> = const { std::cell::Cell::new([0, 0]) };
+}
